@@ -609,6 +609,7 @@ def install(lib):
         c = lambda t: z3.Select(cond.a, t)
         ex.assume(z3.Or(z3.And(r == f, z3.ForAll([jv], z3.Implies(z3.And(0 <= jv, jv < cond.n), z3.Not(c(jv))))),
                         z3.And(0 <= r, r < cond.n, c(r), z3.ForAll([jv], z3.Implies(z3.And(0 <= jv, jv < r), z3.Not(c(jv)))))))
+        ex.ghost.setdefault("argwhere", []).append(r)      # the witness, so that contracts need no existential
         return _ArgWhere(r)
 
     def np_flip(ex, a, axis=None):
@@ -769,13 +770,14 @@ def install(lib):
         return ex.call(ff, list(ops), {})
 
     def lax_dynamic_slice(ex, x, start, sizes):
-        used(ex, "jax.lax.dynamic_slice(x, [s], [w]) = x[s':s'+w] with the start clamped into [0, len - w] (JAX semantics)")
+        used(ex, "jax.lax.dynamic_slice(x, [s], [w]) = x[s':s'+w]: a negative start is first wrapped (s + len), then clamped into [0, len - w] (JAX semantics; checked by tools/model_diff.py)")
         if not isinstance(x, Arr) or len(start) != 1 or len(sizes) != 1:
             raise Unsupported("dynamic_slice on other than a 1-D leading axis")
         w = toz(sizes[0])
         s0 = toz(start[0])
         ex.oblige("dynamic-slice-size-fits", z3.And(w >= 0, w <= x.n), kind="safety")
-        sc = z3.If(s0 < 0, 0, z3.If(s0 > x.n - w, x.n - w, s0))
+        s1 = z3.If(s0 < 0, s0 + x.n, s0)
+        sc = z3.If(s1 < 0, 0, z3.If(s1 > x.n - w, x.n - w, s1))
         jv = z3.Int("j!ew")
         return Arr(z3.Lambda([jv], z3.Select(x.a, sc + jv)), w)
 
